@@ -137,6 +137,33 @@ def scanHeaderLines : List Bytes → HdrScan → Option HdrScan
                                        isChunked := lastToken (splitOn 44 (lower value)) [] == ascii "chunked" }
       else scanHeaderLines rest hs
 
+/-- The pipelining loop of `handleIncomingData` as THIS model reads it (statement skeleton regenerated from the source as
+`Gen.Http.serverExtractLoop`; `C15.gen_extract_loop` pins the two against each other).  What the model relies on:
+the header terminator is searched from offset 0 of the working buffer (`find` without a start offset); the header-size limit,
+the header section, the chunk-scan start `headerEnd + 4`, `totalExpectedLength` and the extracted request are all taken from
+that same origin; after each request the working buffer is TRIMMED (`dataStr = dataStr.substr(requestEndPos)`) and the session
+keeps the trimmed rest - so every offset is relative to the start of the current request (`extractOne buf`, then
+`drainLoop … (buf.drop n)`), never to the start of the pass. -/
+def extractLoopModelled : List String :=
+  ["auto headerEnd = dataStr.find(\"\\r\\n\\r\\n\")",
+   "if (headerEnd == std::string::npos)",
+   "if (headerEnd > SessionInfo::MAX_HEADER_SIZE)",
+   "std::string headerSection = dataStr.substr(0, headerEnd)",
+   "std::istringstream headerStream(headerSection)",
+   "std::size_t requestEndPos",
+   "requestEndPos = findChunkedRequestEnd(dataStr, headerEnd + 4, &decodedBody)",
+   "if (requestEndPos == kChunkedMalformed)",
+   "if (requestEndPos == std::string::npos)",
+   "std::size_t totalExpectedLength = headerEnd + 4 + contentLength",
+   "if (dataStr.length() < totalExpectedLength)",
+   "requestEndPos = totalExpectedLength",
+   "std::string requestData = dataStr.substr(0, requestEndPos)",
+   "requestData = dataStr.substr(0, headerEnd + 4) + decodedBody",
+   "dataStr = dataStr.substr(requestEndPos)",
+   "it->second.buffer = dataStr",
+   "if (!_threadPool.tryEnqueue([this, sid, requestData]()",
+   "processHttpRequest(sid, requestData)"]
+
 /-- one turn of the `while (true)` extraction loop -/
 inductive Extract where
   | needMore
